@@ -118,3 +118,107 @@ func failSource(c *Ctx, call *ssa.Call) string {
 	}
 	return ""
 }
+
+// ---- RECOVER --------------------------------------------------------------------------
+
+// A panic out of a user callback or a Persist implementation ends the process today: nothing in the repository
+// recovers. A recover that only logs turns such a crash into a silent success — the worker that was writing a
+// node ends, Wait returns, the error cell is nil and MakeRoot hands out a root whose node was never written.
+
+func init() {
+	Register(&Rule{ID: "RECOVER", Props: []string{"C03", "C12", "C18", "C09", "C01", "C05"}, Min: 2,
+		Doc: "no deferred function of the repository swallows a panic: every `defer` runs code without a recover(), or the non-nil recovered value is escalated on that edge " +
+			"(re-panicked, or stored as an error into a variable or field that outlives the deferred function); a recover() outside a deferred function is reported too.",
+		Run: runRECOVER})
+}
+
+func isRecoverCall(ins ssa.Instruction) (*ssa.Call, bool) {
+	call, ok := ins.(*ssa.Call)
+	if !ok {
+		return nil, false
+	}
+	b, ok := call.Call.Value.(*ssa.Builtin)
+	return call, ok && b.Name() == "recover"
+}
+
+func runRECOVER(c *Ctx) {
+	P := c.P
+	own := func(f *ssa.Function) bool {
+		o := ir.Outermost(f)
+		return o != nil && o.Pkg != nil && strings.HasPrefix(o.Pkg.Pkg.Path(), ir.MastPath)
+	}
+	// every recover() of the repository, with whether it is escalated
+	type rec struct {
+		call *ssa.Call
+		ok   bool
+	}
+	recovers := map[*ssa.Function][]rec{}
+	for _, fn := range P.Funcs {
+		if !own(fn) {
+			continue
+		}
+		for _, b := range fn.Blocks {
+			for _, ins := range b.Instrs {
+				call, ok := isRecoverCall(ins)
+				if !ok {
+					continue
+				}
+				esc := false
+				for _, b2 := range fn.Blocks {
+					if !nilFactOn(b2, call, false) {
+						continue
+					}
+					for _, i2 := range b2.Instrs {
+						switch y := i2.(type) {
+						case *ssa.Panic:
+							esc = true
+						case *ssa.Store:
+							if !ir.IsErrorType(y.Val.Type()) || ir.IsNilConst(y.Val) {
+								continue
+							}
+							switch ir.Origin(y.Addr).(type) {
+							case *ssa.FreeVar, *ssa.FieldAddr, *ssa.Global:
+								esc = true
+							}
+						}
+					}
+				}
+				recovers[fn] = append(recovers[fn], rec{call, esc})
+				if esc {
+					c.OK(P.InstrPos(call), "recover() in "+ir.FuncName(fn), "a non-nil recovered value is re-panicked or stored as an error that outlives the function", true)
+				} else {
+					c.Violation(fn, P.InstrPos(call), "recovered panic swallowed",
+						"a panic (of a Persist implementation, a user callback, or an internal assertion) is recovered and neither re-raised nor recorded as an error: the operation goes on as if the interrupted step had succeeded — a store worker that panicked leaves the error cell nil, so MakeRoot reports success for a node that was never written")
+				}
+			}
+		}
+	}
+	// every defer of the repository: what it runs contains no recover, or only escalating ones (reported above)
+	for _, fn := range P.Funcs {
+		if !own(fn) {
+			continue
+		}
+		for _, b := range fn.Blocks {
+			for _, ins := range b.Instrs {
+				d, ok := ins.(*ssa.Defer)
+				if !ok {
+					continue
+				}
+				what := "defer in " + ir.FuncName(fn)
+				tgt := calleeOrClosure(&d.Call)
+				switch {
+				case tgt == nil && d.Call.IsInvoke():
+					c.OK(P.InstrPos(d), what, "an interface method of another package's type (cannot recover for this frame's callers without being deferred itself)", true)
+				case tgt == nil:
+					c.Undecided(fn, P.InstrPos(d), "deferred function value of unknown origin", "the deferred call's target is not a function literal or a named function: whether it recovers cannot be decided")
+				case !own(tgt) || tgt.Blocks == nil:
+					c.OK(P.InstrPos(d), what, "runs "+tgt.String()+" (outside the repository: Unlock, Done, Close …)", false)
+				case len(recovers[tgt]) == 0:
+					c.OK(P.InstrPos(d), what, "the deferred function contains no recover()", false)
+				default:
+					c.OK(P.InstrPos(d), what, "the deferred function recovers; each recover() is judged at its own site", false)
+				}
+			}
+		}
+	}
+}
